@@ -654,6 +654,18 @@ func gen(tier string, r *lib.Rand, emit func(string)) {
 		}
 	}
 
+	// targets found by the stream above that once separated a faulty Chain.Ops (two-pointer scan
+	// on a not fully ascending prefix) from the correct one: RunsChain emits an unsorted chain for
+	// them when the length chain is not a star chain
+	for _, h := range []string{"1fffffdfffe0ffffefffffffffbfffffffe", "ffffbffffffff3fefff7ffffffefffff", "1ffffeffffbfffffffdfdffffe0ffff"} {
+		n := lib.ParseHex(h)
+		for _, c := range all {
+			if c.kind == kRuns && strings.Contains(c.alg.String(), "approximation") && eligible(c, n) {
+				emit(execCase(c, n))
+			}
+		}
+	}
+
 	// a few very long targets
 	nlong := 16
 	if thorough {
